@@ -2,7 +2,7 @@
 from props.common_prog import judge_prog
 
 THEOREM_MODULES = ["Hcl.Theorems.C08", "Hcl.Tie.Ops", "Hcl.Tie.Grammar", "Hcl.Tie.PinsCheck"]
-THEOREMS = {"Hcl.Theorems.C08": ["C08_accept_iff_rules", "C08_reject_iff_rule_violated", "C08_target_rule",
+THEOREMS = {"Hcl.Theorems.C08": ["C08_accepted_defaults", "C08_accepted_defaults_stmt", "step3_rule", "step1Of_banksRaw", "C08_accept_iff_rules", "C08_reject_iff_rule_violated", "C08_target_rule",
                                  "C08_width_is_semantic_width", "C08_accepted", "C08_accepted_constants", "assignmentsToActions_rules", "resolveConstants_rules", "check_eq_typeOf", "checkOpts_eq", "checkItems_eq"],
             "Hcl.Tie.Ops": ["Tie.Ops.binopKind", "Tie.Ops.combineText", "Tie.Ops.maxText", "Tie.Ops.defaultFeatures",
                             "Tie.Ops.strictnessConsts"],
